@@ -268,9 +268,10 @@ func (vr *variableResolver) resolve(ctx *ExecutionContext) (*Value, error) {
 			}
 		}
 
+		// (not marked safe: the "safe" flag of a value is inherited by what is
+		// resolved from it, e. g. arr.0, and the elements are plain values)
 		return &Value{
-			val:  reflect.ValueOf(items),
-			safe: true,
+			val: reflect.ValueOf(items),
 		}, nil
 	}
 
